@@ -846,7 +846,14 @@ func c09PullCase(t *testing.T, out *zzverif.Out, rng *zzverif.Rng, dir string, t
 		current["m0"] = g.manifestOf(layers, nil, 0)
 		out.Count("hist_beyond_then_honest")
 	}
-	victim := map[blob.Digest]bool{}
+	// blobs of linked names damaged in place by a size-lying pull (F10d): the attempt that did it and the
+	// bytes it left, so that later attempts can tell "still as that pull left it" from new damage
+	type c09Victim struct {
+		at   int
+		sum  [32]byte
+		size int
+	}
+	victim := map[blob.Digest]c09Victim{}
 	var ops, impls []string
 	caseHdr := tag
 	var l2s [][2]string
@@ -1251,21 +1258,46 @@ func c09PullCase(t *testing.T, out *zzverif.Out, rng *zzverif.Rng, dir string, t
 					}
 				}
 				linkedNow := result == nil && nm == model && bytes.Equal(data, m.data)
+				listedNow, lyingSize := false, int64(-1)
+				if manKind == "ok" {
+					for _, o := range all {
+						if o.dig() == l.Digest {
+							listedNow = true
+							if o.size != l.Size {
+								lyingSize = o.size
+							}
+						}
+					}
+				}
+				nowSum := sha256.Sum256(b)
+				vic, wasVictim := victim[l.Digest]
+				curSize := len(b)
+				if err != nil {
+					curSize = -1 // no such file
+				}
+				unchanged := wasVictim && vic.size == curSize && (curSize == -1 || vic.sum == nowSum)
 				switch {
 				case linkedNow && verify:
 					// this very pull reported success and linked this manifest: on a tree that
 					// verifies before Link nothing excuses a bad layer
 					via = "linked-by-this-successful-pull"
-				case !linkedNow && (victim[l.Digest] || (goodBefore[l.Digest] && declaredOther)):
-					// the blob was good and linked; a pull whose manifest declares the same digest
-					// with ANOTHER size wrote into (or removed) the final file (F10d); it stays
-					// damaged until some pull fetches it again
-					victim[l.Digest] = true
-					via = "size-lie-overwrote-linked-blob"
+				case !linkedNow && declaredOther && (goodBefore[l.Digest] || wasVictim):
+					// the blob was good and linked; THIS pull's manifest declares the same digest with
+					// ANOTHER size and wrote into (or removed) the final file (F10d)
+					victim[l.Digest] = c09Victim{at, nowSum, curSize}
+					via = fmt.Sprintf("size-lie-overwrote-linked-blob declared-size=%d", lyingSize)
 					if staged {
 						// a tree that stages chunked downloads must never damage a verified blob
 						via = "verified-blob-damaged-despite-staging"
 					}
+				case !linkedNow && wasVictim && unchanged && !staged:
+					// byte for byte as the size-lying pull of attempt `vic.at` left it
+					via = fmt.Sprintf("size-lie-overwrote-linked-blob still-as-left-by-attempt=%d", vic.at)
+				case !linkedNow && wasVictim && listedNow && !staged:
+					// a later pull whose manifest lists the damaged blob is fetching it again in place
+					// (removed by verifyLayer, or partly rewritten by an attempt that failed)
+					victim[l.Digest] = c09Victim{vic.at, nowSum, curSize}
+					via = fmt.Sprintf("size-lie-overwrote-linked-blob refetch-in-progress damaged-by-attempt=%d", vic.at)
 				case verify:
 					via = "unknown"
 				case f.sizeLie && g.trueLen(l.Digest) == l.Size:
@@ -1287,10 +1319,9 @@ func c09PullCase(t *testing.T, out *zzverif.Out, rng *zzverif.Rng, dir string, t
 						}
 					}
 				}
-				sum := sha256.Sum256(b)
 				l2s = append(l2s, [2]string{"pull-linked-layer-unverified",
 					fmt.Sprintf("via=%s attempt=%d result=%s name=%s layer=%s want-size=%d have-size=%d have-sha=%x",
-						via, at, cls, nm, l.Digest.Short(), l.Size, len(b), sum[:4])})
+						via, at, cls, nm, l.Digest.Short(), l.Size, len(b), nowSum[:4])})
 			}
 		}
 	}
